@@ -32,6 +32,7 @@ _LEAF = [
     F("b", "bool", False),
     F("e", "enum", {"enum": "RED"}),
     F("o", "opt:int"),
+    F("on", "optd:int", 3),
     F("p", "path", {"path": "/x"}, ignored=True),
     F("m", "int", 0, ignored=True),
     F("opt", "str", "o", ignored=True),
@@ -51,6 +52,9 @@ _BOX = [
     F("dli", "dict:list:int", {"dict": {}}),
     F("ldi", "list:dict:int", []),
     F("ls", "list:str", []),
+    F("lll", "nest:list:list:leaf", []),
+    F("dll", "nest:dict:list:leaf", {"dict": {}}),
+    F("ldl", "nest:list:dict:leaf", []),
     F("sa", "str", "d"),
     F("sb", "str", "d"),
     F("gen", "genpath", generated=True),
